@@ -1,4 +1,4 @@
 import GopModel.Driver.Loop
 import GopModel.Driver.Scan
 open GopModel.Driver
-def main : IO Unit := runDriver (dispatchWith [("scan", handleScan), ("scanx", handleScanX), ("tokinfo", handleTokInfo)])
+def main : IO Unit := runDriver (dispatchWith [("scan", handleScan), ("scanx", handleScanX), ("tokinfo", handleTokInfo), ("golex", handleGoLex), ("shlex", handleShLex)])
